@@ -30,6 +30,8 @@ type G struct {
 	Minimal bool
 	// Full: every optional attribute present.
 	Full bool
+	// MinElems forces at least that many elements in top-level arrays (wire locations where empty == absent).
+	MinElems int
 }
 
 var strBody = []string{"plain", "", "a/b?c#d&e=f+g;h,i", "100% sure", "%41", "%2F%2f", " lead and trail ", "héllo wörld ✓ 𝄞", "line\nbreak\ttab", `quote"back\slash`, "<xml>&amp;</xml>", "null", "0", "日本語"}
@@ -71,7 +73,7 @@ var uintPool = map[string][]uint64{
 var f32Pool = []float32{0, 1, -1, 0.5, -0.25, 3.4028235e38, 1.17549435e-38, 16777217, 1e10, 0.1}
 var f64Pool = []float64{0, 1, -1, 0.5, -0.25, 1.7976931348623157e308, 5e-324, 9007199254740993, 1e21, 0.1, 1e-7, 123456789.123456789}
 
-var anyPool = []any{"text", float64(12), true, nil, map[string]any{"k": "v", "n": float64(1)}, []any{"a", float64(2), false}, float64(1.5), ""}
+var anyPool = []any{"text", float64(12), true, map[string]any{"k": "v", "n": float64(1)}, []any{"a", float64(2), false}, float64(1.5), ""}
 
 // numRange computes the allowed range from validations (own and alias chain).
 type bounds struct {
@@ -194,6 +196,9 @@ func (g *G) Valid(t *spec.Type, v *spec.Val, loc Loc, depth int) any {
 		if g.Minimal {
 			n = 0
 		}
+		if depth <= 1 && n < g.MinElems {
+			n = g.MinElems
+		}
 		if m.MinLen != nil && n < *m.MinLen {
 			n = *m.MinLen
 		}
@@ -247,7 +252,7 @@ func (g *G) Valid(t *spec.Type, v *spec.Val, loc Loc, depth int) any {
 	case spec.Object:
 		o := map[string]any{}
 		for _, a := range rt.Attrs {
-			req := rt.IsRequired(a.Name)
+			req := rt.IsRequired(a.Name) || a.HasDef // a defaulted attribute is a non-pointer field: always set explicitly
 			if !req {
 				if g.Minimal || (!g.Full && g.R.Chance(1, 2)) || depth > 3 {
 					continue
